@@ -362,3 +362,12 @@ func (c *Chain) XibcPacketKeys(prefix string) map[string][]byte {
 }
 
 var _ = bytes.Equal
+
+// DigestStrings hashes a list of strings.
+func DigestStrings(ss []string) []byte {
+	h := sha256.New()
+	for _, s := range ss {
+		fmt.Fprintf(h, "%d|%s|", len(s), s)
+	}
+	return h.Sum(nil)[:8]
+}
